@@ -180,7 +180,7 @@ func main() {
 				a = append(a, "-budget", budget.String())
 			}
 			cmd := exec.Command(bin, a...)
-			cmd.Env = append(os.Environ(), "GOMAXPROCS=2", "GOTRACEBACK=single")
+			cmd.Env = append(os.Environ(), "GOMAXPROCS=1", "GOTRACEBACK=single")
 			var eb bytes.Buffer
 			cmd.Stderr = &eb
 			cmd.Stdout = &eb
